@@ -42,7 +42,8 @@ POLY4NS = {'type': 'Polynomial', 'coef': [1.0, 0.5, 0.0, 0.125], 'size': False}
 TABA = {'type': 'Table', 'pre': [10.0, 20.0, 40.0], 'scaled': [0.0, 2.0, 6.0]}
 TABD = {'type': 'Table', 'pre': [40.0, 20.0, 10.0], 'scaled': [6.0, 2.0, 0.0]}
 TAB2 = {'type': 'Table', 'pre': [-1.0, 1.0], 'scaled': [1.0, 4.0]}
-UNARY = [LIN, POLY0, POLY1, POLY3, POLY4NS, TABA, TABD]
+LIN1 = {'type': 'Linear', 'slope': 1.0, 'intercept': 5.0}   # identity slope: a tempting place for an in-place shortcut
+UNARY = [LIN, LIN1, POLY0, POLY1, POLY3, POLY4NS, TABA, TABD]
 UNARY2 = [LIN2, {'type': 'Polynomial', 'coef': [-1.0, 0.0, 2.0]}, TAB2]
 
 
@@ -268,6 +269,12 @@ def _worker(item):
             hist, expect_specs = placement_file(combo)
             n, probs = check_channel_file(hist, expect_specs, 'Int16', seed)
             record({'part': 'placement', 'raw': 'Int16', 'combo': combo, 'seed': seed}, expect_specs, n, probs)
+    elif kind == 'deep':
+        for specs, with_number in payload:
+            for t in ('Int16', 'DoubleFloat'):
+                hist = custom_values_file(t, R.props_for(specs, number_of_scales=with_number))
+                n, probs = check_channel_file(hist, specs, t, seed)
+                record({'part': 'deep', 'raw': t, 'depth': len(specs), 'with_number': with_number, 'seed': seed}, specs, n, probs)
     elif kind == 'daqmx':
         for specs in payload:
             props = R.props_for(specs)
@@ -330,6 +337,13 @@ def run(ctx):
         for y in (dict(LIN2, src=2), {'type': 'Add', 'left': 0, 'right': 2}, {'type': 'Subtract', 'left': 2, 'right': 1}, dict(TABD, src=2)):
             dq.append([None, None, x, y])
     items.append(('daqmx', dq, ctx.seed))
+    # deep chains (scale i reads scale i-1), with and without NI_Number_Of_Scales: the scale count must be inferred numerically
+    deep = []
+    for k in (9, 10, 11, 12, 21):
+        chain = [dict(LIN1 if i % 2 else LIN, src=(None if i == 0 else i - 1)) for i in range(k)]
+        deep.append((chain, True))
+        deep.append((chain, False))
+    items.append(('deep', deep, ctx.seed))
     m = merge(ctx.map(_worker, items))
     c = m['counters']
     cov = {'evaluations': c['checks'], 'files': c['files'], 'distinct_nontrivial': c['nontrivial'],
@@ -345,6 +359,11 @@ def replay(case):
     if case['part'] == 'graph':
         hist = custom_values_file(case['raw'], R.props_for(case['specs']))
         n, probs = check_channel_file(hist, case['specs'], case['raw'], case.get('seed', 0))
+    elif case['part'] == 'deep':
+        k = case['depth']
+        specs = [dict(LIN1 if i % 2 else LIN, src=(None if i == 0 else i - 1)) for i in range(k)]
+        hist = custom_values_file(case['raw'], R.props_for(specs, number_of_scales=case['with_number']))
+        n, probs = check_channel_file(hist, specs, case['raw'], case.get('seed', 0))
     elif case['part'] == 'placement':
         hist, expect = placement_file(tuple(case['combo']))
         n, probs = check_channel_file(hist, expect, 'Int16', case.get('seed', 0))
